@@ -383,12 +383,14 @@ impl<'a> Builder<'a> {
         requires inv(self),
         ensures res is Ok <==> permitted_target(target, self.ctx.server_capabilities.set@),          // OBL:C09.copy_config.target_iff_permitted
                 res matches Ok(b) ==> inv(b) && b.ctx == self.ctx,                                   // OBL:C09.copy_config.builder_holds_only_permitted
+                res matches Ok(b) ==> b.target.value == Some(Target::Datastore(target)) && b.source == self.source,   // OBL:C09.copy_config.target_is_recorded
 //@end
 //@extract id=copy_config_builder_source file=netconf/src/message/rpc/operation/copy_config.rs impl=/^impl Builder<'_>/ fn=source rules=R1,R7,R16,R17 r7map=result vis=pub
 //@contract
         requires inv(self),
         ensures res is Ok <==> permitted_source(source, self.ctx.server_capabilities.set@),          // OBL:C09.copy_config.source_iff_permitted
                 res matches Ok(b) ==> inv(b) && b.ctx == self.ctx,                                   // OBL:C09.copy_config.builder_holds_only_permitted
+                res matches Ok(b) ==> b.source.value == Some(Source::Datastore(source)) && b.target == self.target,   // OBL:C09.copy_config.source_is_recorded
 //@end
 }
 }
@@ -406,6 +408,7 @@ impl<'a> Builder<'a> {
         requires inv(self),
         ensures res is Ok <==> permitted_source(source, self.ctx.server_capabilities.set@),          // OBL:C09.validate.source_iff_permitted
                 res matches Ok(b) ==> inv(b) && b.ctx == self.ctx,                                   // OBL:C09.validate.builder_holds_only_permitted
+                res matches Ok(b) ==> b.source.value == Some(Source::Datastore(source)),             // OBL:C09.validate.source_is_recorded
 //@end
 }
 }
@@ -443,6 +446,7 @@ impl<'a, D> Builder<'a, D> {
         requires inv(self),
         ensures res is Ok <==> permitted_target(target, self.ctx.server_capabilities.set@),          // OBL:C09.edit_config.target_iff_permitted
                 res matches Ok(b) ==> inv(b) && b.ctx == self.ctx,                                   // OBL:C09.edit_config.builder_holds_only_permitted
+                res matches Ok(b) ==> b.target.value == Some(target) && b.error_option == self.error_option && b.test_option == self.test_option,   // OBL:C09.edit_config.target_is_recorded
 //@end
 //@extract id=edit_config_builder_error_option file=netconf/src/message/rpc/operation/edit_config.rs impl=/^impl<D> Builder<'_, D>/ fn=error_option rules=R1,R7,R16,R17 r7map=result vis=pub
 //@+ sub=/try_use::<D>(=>try_use(/
@@ -450,6 +454,7 @@ impl<'a, D> Builder<'a, D> {
         requires inv(self),
         ensures res is Ok <==> permitted_error_option(error_option, self.ctx.server_capabilities.set@),   // OBL:C09.edit_config.error_option_iff_permitted
                 res matches Ok(b) ==> inv(b) && b.ctx == self.ctx,                                   // OBL:C09.edit_config.builder_holds_only_permitted
+                res matches Ok(b) ==> b.error_option == error_option && b.target == self.target && b.test_option == self.test_option,   // OBL:C09.edit_config.error_option_is_recorded
 //@end
 //@extract id=edit_config_builder_test_option file=netconf/src/message/rpc/operation/edit_config.rs impl=/^impl<D> Builder<'_, D>/ fn=test_option rules=R1,R7,R16,R17 r7map=result vis=pub
 //@+ sub=/try_use::<D>(=>try_use(/
@@ -457,6 +462,7 @@ impl<'a, D> Builder<'a, D> {
         requires inv(self),
         ensures res is Ok <==> permitted_test_option(test_option, self.ctx.server_capabilities.set@),     // OBL:C09.edit_config.test_option_iff_permitted
                 res matches Ok(b) ==> inv(b) && b.ctx == self.ctx,                                   // OBL:C09.edit_config.builder_holds_only_permitted
+                res matches Ok(b) ==> b.test_option == test_option && b.target == self.target && b.error_option == self.error_option,   // OBL:C09.edit_config.test_option_is_recorded
 //@end
 }
 }
